@@ -2,7 +2,7 @@
 # Runs every seeded change under /verif/seeded against the quick check of its property (and, if that check stays silent,
 # against the other checks named in tools/seed_also.txt).  Prints one line per seed.
 cd /verif
-for d in seeded/*/; do
+for d in seeded/${SEED_GLOB:-*}/; do
   id=$(basename $d); prop=${id:0:3}
   extra=$(grep "^$id " tools/seed_also.txt 2>/dev/null | cut -d' ' -f2-)
   res=""
